@@ -29,6 +29,7 @@ import weakref
 from vf import linehook
 
 SLACK = 5.0
+FAR = 100000.0     # virtual seconds; a wait longer than this is treated as 'forever'
 _REAL = {
     'Lock': threading.Lock, 'RLock': threading.RLock, 'Event': threading.Event,
     'Condition': threading.Condition, 'start': threading.Thread.start, 'join': threading.Thread.join,
@@ -110,6 +111,7 @@ class LThread(object):
     self.pending_exc = None
     self.label = 'start'
     self.ident = None
+    self.last_line = None
 
   def __repr__(self):
     return 'T%d(%s,%s)' % (self.tid, self.name, self.state)
@@ -149,6 +151,8 @@ class Scheduler(object):
     self.state_hashes = set()
     self.preempt_filter = preempt_filter
     self.line_watch = ()
+    self.signal_enabled = None
+    self.gates = []
     self.lock = _thread.allocate_lock()   # protects registry during thread bootstrap
 
   # ---- registry -------------------------------------------------------------
@@ -166,6 +170,23 @@ class Scheduler(object):
     lt.state = 'ready'
     self.threads.append(lt)
     return lt
+
+  def add_gate(self, event, thread_name, flt=None, cost=0, after=None):
+    """An externally triggered event (e.g. "the operator presses abort now").
+
+    While unfired, every decision point accepted by `flt(sched, running_thread)` offers the extra alternative
+    "open the gate": the event is set and the thread waiting on it runs next.
+    """
+    g = {'event': event, 'thread': thread_name, 'fired': False, 'cost': cost, 'filter': flt or (lambda s, me: True),
+         'after': after}
+    self.gates.append(g)
+    return g
+
+  def _thread_named(self, name):
+    for t in self.threads:
+      if t.name == name:
+        return t
+    return None
 
   def next_seq(self):
     self.seq += 1
@@ -197,14 +218,20 @@ class Scheduler(object):
               t.deadline > self.now and not (t.wait_pred is not None and t.wait_pred())]
     timers.sort(key=lambda t: (t.deadline, t.tid))
     if not alts:
-      # nothing enabled: time passes to the earliest deadline (no choice involved)
-      if timers:
+      # nothing enabled: time passes to the earliest deadline (no choice involved) -- unless that deadline is
+      # absurdly far away (the executor's one-year join): then every thread is stuck, i.e. a deadlock.
+      if timers and timers[0].deadline - self.now <= FAR:
         alts.append(('timer', timers[0]))
     else:
       for t in timers:
         if t.deadline - self.now <= SLACK:
           alts.append(('timer', t))
-    if self.signals_left > 0 and self.threads[0].state != 'done':
+    for g in self.gates:
+      if not g['fired'] and (g['after'] is None or g['after']['fired']) and g['filter'](self, me):
+        t = self._thread_named(g['thread'])
+        if t is not None and t.state == 'blocked':
+          alts.append(('gate%d' % g['cost'], t, g))
+    if self.signals_left > 0 and self.threads[0].state != 'done' and (self.signal_enabled is None or self.signal_enabled()):
       alts.append(('signal', self.threads[0]))
     return alts
 
@@ -218,6 +245,8 @@ class Scheduler(object):
     if self.aborting:
       raise SchedulerAbort()
     me.label = label
+    if not label.startswith('L:'):
+      me.last_line = None
     self.steps += 1
     if self.steps > self.max_steps:
       self.failure = StepLimit('more than %d scheduling steps (livelock?) at %s' % (self.max_steps, label))
@@ -240,14 +269,23 @@ class Scheduler(object):
       if self.preempt_filter is not None and cur_enabled and not self.preempt_filter(me, label):
         idx = 0    # not a preemption point for this harness: no decision recorded
       else:
-        idx = self.chooser(len(alts), {'cur_enabled': cur_enabled, 'kinds': kinds, 'label': label,
-                                       'tid': me.tid, 'step': len(self.points)})
-        if not 0 <= idx < len(alts):
-          raise Divergence('choice %d out of range (%d alternatives) at %s' % (idx, len(alts), label))
+        try:
+          idx = self.chooser(len(alts), {'cur_enabled': cur_enabled, 'kinds': kinds, 'label': label,
+                                         'tid': me.tid, 'step': len(self.points)})
+          if not 0 <= idx < len(alts):
+            raise Divergence('choice %d out of range (%d alternatives) at %s' % (idx, len(alts), label))
+        except Divergence as e:
+          self.failure = e
+          self._abort_all(me)
+          raise SchedulerAbort()
         self.points.append({'n': len(alts), 'choice': idx, 'cur_enabled': cur_enabled, 'kinds': kinds,
                             'label': label, 'tid': me.tid})
-    kind, target = alts[idx]
+    kind, target = alts[idx][0], alts[idx][1]
     self.state_hashes.add(hash((tuple((t.state, t.label) for t in self.threads), kind, target.tid)))
+    if kind.startswith('gate'):
+      g = alts[idx][2]
+      g['fired'] = True
+      g['event']._flag = True  # pylint: disable=protected-access
     if kind == 'timer':
       self.now = max(self.now, target.deadline)
       target.timed_out = True
@@ -328,13 +366,21 @@ class Scheduler(object):
     if len(alts) == 1:
       idx = 0
     else:
-      idx = self.chooser(len(alts), {'cur_enabled': False, 'kinds': [a[0] for a in alts], 'label': 'exit:' + me.name,
-                                     'tid': me.tid, 'step': len(self.points)})
-      if not 0 <= idx < len(alts):
-        raise Divergence('choice %d out of range (%d) at exit of %s' % (idx, len(alts), me.name))
+      try:
+        idx = self.chooser(len(alts), {'cur_enabled': False, 'kinds': [a[0] for a in alts], 'label': 'exit:' + me.name,
+                                       'tid': me.tid, 'step': len(self.points)})
+        if not 0 <= idx < len(alts):
+          raise Divergence('choice %d out of range (%d) at exit of %s' % (idx, len(alts), me.name))
+      except Divergence as e:
+        self.failure = e
+        self._abort_all(me)
+        return
       self.points.append({'n': len(alts), 'choice': idx, 'cur_enabled': False, 'kinds': [a[0] for a in alts],
                           'label': 'exit:' + me.name, 'tid': me.tid})
-    kind, target = alts[idx]
+    kind, target = alts[idx][0], alts[idx][1]
+    if kind.startswith('gate'):
+      alts[idx][2]['fired'] = True
+      alts[idx][2]['event']._flag = True  # pylint: disable=protected-access
     if kind == 'timer':
       self.now = max(self.now, target.deadline)
       target.timed_out = True
@@ -714,6 +760,10 @@ def _line_cb(code, lineno):
   s, me = current()
   if s is None or me is None or s.aborting:
     return None
+  key = (code, lineno)
+  if me.last_line == key:
+    return None       # sys.monitoring may report one line twice (re-instrumentation artefact): not a new point
+  me.last_line = key
   if s.line_watch and code.co_name in s.line_watch:
     s.events.append(('line', me.name, code.co_name, lineno, s.now))
   s.switch(me, 'L:%s:%d' % (code.co_name, lineno))
@@ -756,12 +806,12 @@ class Installed(object):
         self.saved['handler_locks'].append((h, h.lock))
         h.lock = FakeRLock()
     if self.focus_targets:
-      linehook.install(self.focus_targets, _line_cb)
+      linehook.ensure(self.focus_targets, _line_cb)
     return s
 
   def __exit__(self, etype, evalue, tb):
     s = self.sched
-    linehook.uninstall()
+    # (line hooks stay installed for the life of the process; the callback is inert without an active scheduler)
     # tear down: release every parked thread
     s.aborting = True
     for t in s.threads[1:]:
